@@ -141,6 +141,8 @@ class Explorer:
             try:
                 outcome, value = body(ctx)
             except Infeasible:
+                if ctx.obligations:      # the path was cut after an obligation that is plainly false: keep the obligation
+                    results.append(PathResult(ctx, "cut", None))
                 continue
             results.append(PathResult(ctx, outcome, value))
         return results
